@@ -589,8 +589,8 @@ def render_template_error(template_error: TemplateError, indent_size: int = 4):
 def render_template_evaluation_error(
     template_error: TemplateEvaluationError, indent_size: int = 4
 ):
-    assert template_error.template
-    assert template_error.expression
+    assert template_error.template is not None
+    assert template_error.expression is not None
 
     log.error("While processing file %r with template:", template_error.file)
     log.error(indent(template_error.template, " " * indent_size))
